@@ -30,7 +30,19 @@ func loadRepo(c *core.Ctx, extra ...string) *load.Prog {
 var kindRecv = map[genfacts.Class]string{genfacts.ClsStruct: "Struct", genfacts.ClsMessage: "Message", genfacts.ClsUnion: "Union"}
 
 // anchorPos is the /repo position of the emitter of a method for a record kind.
+var anchorCache = map[string]string{}
+
 func anchorPos(p *load.Prog, kind genfacts.Class, method string) string {
+	name := kindRecv[kind] + ".generate" + method
+	if v, ok := anchorCache[p.Dir+name]; ok {
+		return v
+	}
+	v := anchorPosSlow(p, kind, method)
+	anchorCache[p.Dir+name] = v
+	return v
+}
+
+func anchorPosSlow(p *load.Prog, kind genfacts.Class, method string) string {
 	name := kindRecv[kind] + ".generate" + method
 	if fd := p.FuncDecl(p.Bebop(), name); fd != nil {
 		return p.Pos(fd.Pos()) + " (" + name + ")"
@@ -183,15 +195,40 @@ type genRun struct {
 	ga *GenAnalysis
 }
 
+// genCache lets one process decide several properties from one fold of the
+// generator (bebopcheck multi); keyed by repo directory and tier.
+var genCache = map[string]*cachedGen{}
+
+type cachedGen struct {
+	p         *load.Prog
+	ga        *GenAnalysis
+	undecided []string
+	analysed  map[string]int
+}
+
 func startGen(c *core.Ctx) *genRun {
-	p := loadRepo(c)
-	if p == nil {
+	key := c.RepoDir + "|" + c.Tier
+	cg := genCache[key]
+	if cg == nil {
+		tmp := core.NewCtx(c.Prop, c.Tier, c.RepoDir, c.VerifDir)
+		p := loadRepo(tmp)
+		var ga *GenAnalysis
+		if p != nil {
+			ga = runGen(tmp, p, configFor(tmp))
+		}
+		cg = &cachedGen{p: p, ga: ga, undecided: tmp.Undecided, analysed: tmp.Analysed}
+		genCache[key] = cg
+	}
+	for _, u := range cg.undecided {
+		c.Undecide("%s", u)
+	}
+	for k, v := range cg.analysed {
+		c.Count(k, v)
+	}
+	if cg.p == nil || cg.ga == nil {
 		return nil
 	}
-	ga := runGen(c, p, configFor(c))
-	if ga == nil {
-		return nil
-	}
+	p, ga := cg.p, cg.ga
 	gr := &genRun{c: c, p: p, ga: ga}
 	// every emitted codec method must be fully understood by the reader;
 	// otherwise nothing is claimed about it.
@@ -253,16 +290,22 @@ func (gr *genRun) diffBodies(rule string, rf *RecFacts, ma, mb string, a, b []wi
 		}
 		d, pos, same := wire.Diff(wa, wb)
 		what := ma + " vs " + mb
-		gr.c.Check(rule, what+" "+bodyKey(rf, tag), anchorPos(gr.p, rf.Spec.Kind, ma), same,
-			fmt.Sprintf("%s: %s — %s", what, d, rf.where(pos)))
+		msg := ""
+		if !same {
+			msg = fmt.Sprintf("%s: %s — %s", what, d, rf.where(pos))
+		}
+		gr.c.Check(rule, what+" "+bodyKey(rf, tag), anchorPos(gr.p, rf.Spec.Kind, ma), same, msg)
 	}
 }
 
 func (gr *genRun) diffFrames(rule string, rf *RecFacts, ma, mb string, a, b []wire.Item) {
 	d, pos, same := wire.Diff(frame(a), frame(b))
 	what := ma + " vs " + mb
-	gr.c.Check(rule, what+" "+frameKey(rf), anchorPos(gr.p, rf.Spec.Kind, ma), same,
-		fmt.Sprintf("%s framing: %s — %s", what, d, rf.where(pos)))
+	msg := ""
+	if !same {
+		msg = fmt.Sprintf("%s framing: %s — %s", what, d, rf.where(pos))
+	}
+	gr.c.Check(rule, what+" "+frameKey(rf), anchorPos(gr.p, rf.Spec.Kind, ma), same, msg)
 }
 
 // readerView converts a writer signature into what a reader of the same
